@@ -7,7 +7,7 @@ When-style retire, Get const&, Get &&, Ready, Ready-then-Touch, copy, destroy), 
 every interleaving at atomic-operation granularity, spurious weak-CAS failures and stale pre-check loads included.
 Helper lemmas and the inductive invariants are in Proofs/Shared*.lean.
 
-`ready_sound` is FALSE for the code as it is (defect D3): see `ready_sound_violated_witness` below.
+`ready_sound` holds since /repo c9c07bc (defect D3 of the pinned tree: see the comment in the Ready() section).
 -/
 import YaclibModel.Proofs.SharedProgress
 import YaclibModel.Extracted.Kernels
@@ -338,52 +338,59 @@ theorem no_second_moveout (h : Reachable w s) (hm : s.movedOut = true) {l : Labe
 
 /-! ### Ready()
 
-FALSE for the code as it is (defect D3): `SharedFutureBase::Ready()` is `!_core->Empty()`, i.e. "the word is not
-kEmpty", and for a shared core the word is also not kEmpty while callbacks are merely registered.
+`SharedFutureBase::Ready()` is `BaseCore::Ready()`: one acquire load of the word, true iff it returned kResult
+(`Step.oReady` reports `decide (x = .result)` for the loaded value `x`, which `readyObs` records together with
+"was the storage constructed at the moment of the report"). -/
 
-    theorem ready_sound (h : Reachable w s) : ∀ x ∈ s.readyObs, x.1 ≠ .list [] → x.2 = true          -- does NOT hold
-
-What holds is the version for the loads that really saw kResult, and the statement that an unsound `true` is
-always due to a registered callback. -/
-
-theorem ready_sound_partial (h : Reachable w s) : ∀ x ∈ s.readyObs, x.1 = .result → x.2 = true :=
+/-- `Ready() == true` ⇒ the storage is constructed — in every reachable state of every workload, stale loads included -/
+theorem ready_sound (h : Reachable w s) : ∀ x ∈ s.readyObs, x.1 = .result → x.2 = true :=
   (inv_reachable h).a.ready_obs
 
-/-- `Ready() == true` with unconstructed storage happens only when the word it loaded was a non-empty list of
-    registered callbacks (so: never if nobody ever attaches anything before the value is set) -/
-theorem ready_unsound_only_with_callbacks (h : Reachable w s) :
-    ∀ x ∈ s.readyObs, x.1 ≠ .list [] → x.2 = false → ∃ c l, x.1 = .list (c :: l) := by
-  intro x hx hne hfalse
-  cases hx1 : x.1 with
-  | result => have := ready_sound_partial h x hx hx1; simp_all
-  | list l =>
-      cases l with
-      | nil => exact absurd hx1 hne
-      | cons c l => exact ⟨c, l, rfl⟩
+/-- the same at the step that reports: whenever `Ready()` returns true the storage holds exactly the Result that was set -/
+theorem ready_true_means_stored (h : Reachable w s) {l : Label} {s' : State} (hs : Step s l s') {t : Nat}
+    (hl : l = .oReady t true) : s.word = .result ∧ s.stored = some w.prod.res := by
+  have hi := (inv_reachable h).a
+  cases hs with
+  | oReady t' x hp =>
+      injection hl with h1 h2
+      subst h1
+      have hx : x = .result := by simpa using h2
+      subst hx
+      have hne := hi.rep_res t' hp
+      exact ⟨hi.word_iff.mpr hne, by rw [hi.stored_eq, if_neg hne]⟩
+  | _ => cases hl
+
+/-- the `Touch()` that `Ready() == true` licenses reads the Result that was set (never unconstructed storage) -/
+theorem touch_reads_set (h : Reachable w s) : ∀ x ∈ s.touchObs, x = some w.prod.res :=
+  (inv_reachable h).a.touch_val
+
+/-- hence the validator's rules `oReady.true.unset` and `oTouch.none` are unreachable -/
+theorem touch_never_reads_unconstructed (h : Reachable w s) : none ∉ s.touchObs := by
+  intro hm; have := touch_reads_set h none hm; cases this
+
+/-
+Defect D3 of the pinned tree, fixed by /repo c9c07bc. Before the fix `Ready()` was `!_core->Empty()`, i.e. "the word is
+not kEmpty", which for a shared core is also true while callbacks are merely registered; `ready_sound` was false and
+this file contained the negation on a witness instead:
+
+    theorem ready_sound_violated_witness :
+        ∃ (w : Workload) (s : State), Reachable w s ∧ s.fpc = .start ∧ s.stored = none ∧
+          (∃ x ∈ s.readyObs, x.1 ≠ .list [] ∧ x.2 = false) ∧ none ∈ s.touchObs
+    -- w = ⟨.set (.val 42), [[.attach .inl, .drop], [.readyTouch, .drop]]⟩, run through `next`:
+    --   oLoad 0 (.list []) ; oCasOk 0 ; oRdLoad 1 (.list [c0]) ; oReady 1 true ; oTouch 1 none
+
+Exhibited by this check on the real library before the fix (3 827 of 520 936 quick executions):
+    scenario: shared prod=set:42 exec=now o0=sub_inline,drop o1=ready_touch,drop
+    choices:  k1/3 p0/2 p0/2 w0/2 p0/2 p0/2 k1/2 p0/2 p0/2 p0/2
+    trace:    o0 A w load acq - -> empty | o0 A w cas_weak rel/acq empty>cb0 -> ok | o0 A cnt fsub rel 1 -> 5 |
+              o1 A w load acq - -> cb0 | o1 E ready 1 | o1 E touch none | o1 A cnt fsub rel 1 -> 4 |
+              p A w xchg acq_rel result -> cb0 | p A cnt fsub rel 1 -> 3 | p E invoke o0.0 val:42 | …
+The harness monitor "Ready() == true ⇒ Touch() reads the set value" is unchanged and must stay quiet now.
+-/
 
 /-- everything the trace validator accepts is a behaviour the theorems speak about -/
 theorem validator_sound {l : Label} {s' : State} (h : Reachable w s) (hn : next s l = some s') : Reachable w s' :=
   .step h (next_sound hn)
-
-/-- D3, the replay in the model: observer 0 registers an inline callback (`SubscribeInline`), observer 1 then calls
-    `Ready()` on its own copy: **true**, although nothing has been set, and the `Touch()` it is thereby entitled to
-    reads unconstructed storage.  (The same run on the real library: notes/C06.md.) -/
-theorem ready_sound_violated_witness :
-    ∃ (w : Workload) (s : State), Reachable w s ∧ s.fpc = .start ∧ s.stored = none ∧
-      (∃ x ∈ s.readyObs, x.1 ≠ .list [] ∧ x.2 = false) ∧ none ∈ s.touchObs := by
-  let w : Workload := ⟨.set (.val 42), [[.attach .inl, .drop], [.readyTouch, .drop]]⟩
-  let c0 : Cb := ⟨0, 0, .inl⟩
-  have h0 : Reachable w (init w) := .init
-  have h1 := validator_sound h0 (l := .oLoad 0 (.list [])) (s' := _) rfl
-  have h2 := validator_sound h1 (l := .oCasOk 0) (s' := _) rfl
-  have h3 := validator_sound h2 (l := .oRdLoad 1 (.list [c0])) (s' := _) rfl
-  have h4 := validator_sound h3 (l := .oReady 1 true) (s' := _) rfl
-  have h5 := validator_sound h4 (l := .oTouch 1 none) (s' := _) rfl
-  refine ⟨w, _, h5, rfl, rfl, ⟨(.list [c0], false), ?_, by simp, rfl⟩, ?_⟩
-  · show (Word.list [c0], false) ∈ [(Word.list [c0], false)]
-    simp
-  · show (none : Option Res) ∈ [none]
-    simp
 
 /-! ### non-vacuity: concrete workloads reach the interesting states -/
 
@@ -474,6 +481,7 @@ theorem tie_BaseCore_SetCallbackImpl : Extracted.Kernels.BaseCore_SetCallbackImp
 theorem tie_BaseCore_SetInlineImpl : Extracted.Kernels.BaseCore_SetInlineImpl = Skeletons.BaseCore_SetInlineImpl := rfl
 theorem tie_BaseCore_SetResultImpl : Extracted.Kernels.BaseCore_SetResultImpl = Skeletons.BaseCore_SetResultImpl := rfl
 theorem tie_BaseCore_Empty : Extracted.Kernels.BaseCore_Empty = Skeletons.BaseCore_Empty := rfl
+theorem tie_BaseCore_Ready : Extracted.Kernels.BaseCore_Ready = Skeletons.BaseCore_Ready := rfl
 theorem tie_ResultCore_Impl : Extracted.Kernels.ResultCore_Impl = Skeletons.ResultCore_Impl := rfl
 theorem tie_Core_Impl : Extracted.Kernels.Core_Impl = Skeletons.Core_Impl := rfl
 theorem tie_Core_Done : Extracted.Kernels.Core_Done = Skeletons.Core_Done := rfl
